@@ -145,11 +145,13 @@ impl ScalarValue {
             Some(SupportedScalar::I16(num)) => Some(num as i64),
             Some(SupportedScalar::I32(num)) => Some(num as i64),
             Some(SupportedScalar::I64(num)) => Some(num),
+            Some(SupportedScalar::I128(num)) => i64::try_from(num).ok(),
             Some(SupportedScalar::Isize(num)) => Some(num as i64),
             Some(SupportedScalar::U8(num)) => Some(num as i64),
             Some(SupportedScalar::U16(num)) => Some(num as i64),
             Some(SupportedScalar::U32(num)) => Some(num as i64),
             Some(SupportedScalar::U64(num)) => Some(num as i64),
+            Some(SupportedScalar::U128(num)) => u64::try_from(num).ok().map(|num| num as i64),
             Some(SupportedScalar::Usize(num)) => Some(num as i64),
             _ => None,
         }
